@@ -46,10 +46,10 @@ Theorem C03_roundtrip_static : forall e k n sid vs,
   decode e sid (encode e sid (VStruct vs)) = DOk (norm_struct e sid (VStruct vs)) [].
 Proof. exact RoundTripProofs.roundtrip_struct_static. Qed.
 
-(* into any admissible target (every position without a declared default holds the Go zero value), before any
+(* into ANY target (whatever it holds: the repaired ResetDefault assigns every member first), before any
    suffix that cannot be mistaken for a member: the cursor stops exactly at the suffix *)
 Theorem C03_roundtrip_into : forall e k sid vs prior rest,
-  wf_schema k e -> has_type e (TStruct sid) (VStruct vs) -> zlike e (TStruct sid) prior ->
+  wf_schema k e -> has_type e (TStruct sid) (VStruct vs) ->
   (forall fd, In fd (fields_of e sid) -> follows (ftag fd) rest) ->
   (need_list vs + k + 3 <= 2 * length (encode e sid (VStruct vs) ++ rest) + 64)%nat ->
   decode_into e sid prior (encode e sid (VStruct vs) ++ rest) = DOk (norm_struct e sid (VStruct vs)) rest.
